@@ -206,8 +206,9 @@ func NewParams(schema *Schema, su SimpleURL, resType string) (*Params, error) {
 			}
 		}
 
-		// Add 1 because of id
-		restOfRules := make([]string, 0, len(typ.Attrs)+1-len(sortingRules))
+		// The caller may repeat rules, so the number of rules given says
+		// nothing about how many attributes are left.
+		restOfRules := make([]string, 0, len(typ.Attrs))
 
 		for _, attr := range typ.Attrs {
 			found := false
